@@ -92,6 +92,16 @@ def step (st : St) (line : String) : St × String :=
       | .ok a => ({ st with alph := some a }, s!"ok {a.size}")
       | .error e => ({ st with alph := none }, showErr e)
     | _, _, _ => bad
+  | ["alpheq", n1, k1, sp1, n2, k2, sp2] =>
+    let mk (n k sp : String) : Option (Except Err KAlph) :=
+      match n.toNat?, k.toNat?, (if sp == "-" then some none else (parseNats sp).map some) with
+      | some n, some k, some sp => some (mkAlph n k sp)
+      | _, _, _ => none
+    match mk n1 k1 sp1, mk n2 k2 sp2 with
+    | some (.ok a), some (.ok b) => (st, s!"ok {kalphEq a b} {kalphEq b a}")
+    | some (.error e), _ => (st, showErr e)
+    | _, some (.error e) => (st, showErr e)
+    | _, _ => bad
   | cmd :: args =>
     match st.alph with
     | none => (st, "no-alph")
@@ -161,6 +171,14 @@ def step (st : St) (line : String) : St × String :=
         | some t, some cs, some m => (st, showRes triplesOut (matchSeq t cs m))
         | none, _, _ => (st, "no-table")
         | _, _, _ => bad
+      | "matchq", [i, codes, mask, qa] =>
+        let qa? : Option QAlph :=
+          if qa == "f" then some .foreign
+          else if qa.startsWith "p" then (qa.drop 1).toNat?.map .pre else none
+        match tbl i, parseNats codes, (if mask == "-" then some none else (parseBits mask).map some), qa? with
+        | some t, some cs, some m, some qa => (st, showRes triplesOut (matchSeqQ t qa cs m))
+        | none, _, _, _ => (st, "no-table")
+        | _, _, _, _ => bad
       | "matchsim", [i, codes, mask, mat, thr] =>
         match tbl i, parseNats codes, (if mask == "-" then some none else (parseBits mask).map some),
               parseInts mat, thr.toInt? with
